@@ -22,6 +22,7 @@ import (
 	"github.com/mimecast/dtail/internal/mapr/server"
 	"github.com/mimecast/dtail/internal/protocol"
 	user "github.com/mimecast/dtail/internal/user/server"
+	"github.com/mimecast/dtail/internal/verifhook"
 )
 
 type handleCommandCb func(context.Context, lcontext.LContext, int, []string, string)
@@ -299,6 +300,7 @@ func (h *baseHandler) flush() {
 
 func (h *baseHandler) shutdown() {
 	dlog.Server.Debug(h.user, "shutdown()")
+	verifhook.At("handler.shutdown", h)
 	h.flush()
 
 	go func() {
